@@ -3,16 +3,18 @@ import Drivers.Common
 /-
 Line protocol of the mj_fwdConstraint skeleton model (C11):
   skel <function>     -> the guarded statements of the modelled function, joined by " ;; "
-                         (functions: mj_fwdConstraint, dualFinish, mj_dualFinish, mj_constraintUpdate)
-  exec <noRows 0|1> <islands 0|1> <solver pgs|cg|newton> <noslip 0|1> <nv> <map entries...>
+                         (functions: mj_fwdConstraint, warmstart, dualFinish, mj_dualFinish, mj_constraintUpdate)
+  others <function>   -> the statements of the function that the model treats as writing no tracked array, joined by " ;; "
+  exec <noRows 0|1> <islands 0|1> <solver pgs|cg|newton> <noslip 0|1> <warm 0|1> <zeroBetter 0|1> <nv> <map entries...>
                       -> symbolic run of mj_fwdConstraint from a state whose tracked arrays hold the
                          marker `stale`: final qfrc_constraint entries and final efc_force as terms over
-                         the abstract leaves (warm, mono, isl, noslip; JTf(f)[k], 0 outside the islands)
+                         the abstract leaves (updW, updS, zeroF, mono, isl, noslip; JTf(f)[k], 0 outside the islands)
 -/
 open MjProof MjProof.Driver MjProof.FwdConstraint
 
 def progOf : String → Option Prog
   | "mj_fwdConstraint" => some mjFwdConstraint
+  | "warmstart" => some warmstartBody
   | "dualFinish" => some dualFinishBody
   | "mj_dualFinish" => some mjDualFinishBody
   | "mj_constraintUpdate" => some mjConstraintUpdate
@@ -30,7 +32,9 @@ def symLeaves (nv : Nat) (map : List Nat) (islands : Bool) : Leaves String Strin
   map := map
   jtf := fun f => (List.range nv).map fun k =>
     if islands && !map.contains k then "0" else "JTf(" ++ f ++ ")[" ++ toString k ++ "]"
-  warm := "warm"
+  updW := "updW"
+  updS := "updS"
+  zeroF := "zeroF"
   mono := fun s f => "mono_" ++ (match s with | .pgs => "pgs" | .cg => "cg" | .newton => "newton") ++ "(" ++ f ++ ")"
   isl := fun s f => "isl_" ++ (match s with | .pgs => "pgs" | .cg => "cg" | .newton => "newton") ++ "(" ++ f ++ ")"
   noslip := fun f => "noslip(" ++ f ++ ")"
@@ -42,17 +46,22 @@ def step (line : String) : String :=
     match progOf f with
     | some p => " ;; ".intercalate (skeleton p)
     | none => "bad-op"
-  | "exec" :: nr :: isl :: sol :: ns :: nv :: map =>
-    match boolOf nr, boolOf isl, solverOf sol, boolOf ns, nv.toNat?, map.mapM String.toNat? with
-    | some nr, some isl, some sol, some ns, some nv, some map =>
+  | ["others", f] =>
+    match progOf f with
+    | some p => " ;; ".intercalate (others p)
+    | none => "bad-op"
+  | "exec" :: nr :: isl :: sol :: ns :: wm :: zb :: nv :: map =>
+    match boolOf nr, boolOf isl, solverOf sol, boolOf ns, boolOf wm, boolOf zb, nv.toNat?, map.mapM String.toNat? with
+    | some nr, some isl, some sol, some ns, some wm, some zb, some nv, some map =>
       if nv > 4096 || map.any (· ≥ nv) then "bad-op" else
       let L := symLeaves nv map isl
       let s0 : St String String := { qfrc := List.replicate nv "stale", ifrc := List.replicate map.length "stale",
                                      force := "stale", iforce := "stale" }
-      match exec L { noRows := nr, islands := isl, solver := sol, noslip := ns } mjFwdConstraint s0 with
+      match exec L { noRows := nr, islands := isl, solver := sol, noslip := ns, warm := wm, zeroBetter := zb,
+                     oracle := fun _ => false } mjFwdConstraint s0 with
       | some s => "q " ++ " ".intercalate s.qfrc ++ " | f " ++ s.force
       | none => "stuck"
-    | _, _, _, _, _, _ => "bad-op"
+    | _, _, _, _, _, _, _, _ => "bad-op"
   | _ => "bad-op"
 
 def main : IO Unit := runStateless step
